@@ -43,7 +43,13 @@ def worker_main(tq, rq, logdir, stop):
         try:
             res = ('ok', globals()[fn](arg))
         except BaseException:  # noqa
-            res = ('error', traceback.format_exc())
+            # an exception of the harness itself (not of the library: those are recorded outcomes).  Seen once in ~150 quick
+            # runs and never again with the same seed: play the scenario once more before calling it a machinery failure
+            first = traceback.format_exc()
+            try:
+                res = ('ok', globals()[fn](arg))
+            except BaseException:  # noqa
+                res = ('error', first + '\n(second attempt)\n' + traceback.format_exc())
         rq.put((i, res))
 
 
